@@ -446,14 +446,21 @@ impl Ctx {
         }
         let small = n <= 12;
         let mut input = json!({"pair_kind": kind, "perm": perm, "a": {"registry": ra, "settings": a.1}, "b": {"registry": rb, "settings": b.1}});
+        // validation of both settings against their registry, canonicalised as a set (sorted entries, sorted
+        // derive lists, paths as spelled): recorded in the case line only, so that the cross-process comparison
+        // of C06 (driver) sees a validation error that depends on the hash seed ("validation results compared as sets")
+        let validation = |reg: &PortableRegistry, spec: &SettingsSpec| -> String {
+            format!("{:?}", crate::c11::observe_validate(reg, &spec.ops))
+        };
+        let (va, vb) = (validation(a.0, a.1), validation(b.0, b.1));
         if let Some(info) = retain {
             input["retain"] = info.json();
         }
         let mut j = if small {
-            json!({"stream": stream, "input": input,
+            json!({"stream": stream, "input": input, "validation": [va, vb],
                    "observed_a": oa.gen.json(|t| json!(t.join(" "))), "observed_b": ob.gen.json(|t| json!(t.join(" ")))})
         } else {
-            json!({"stream": stream, "input": input, "observed_kinds": [oa.gen.kind(), ob.gen.kind()]})
+            json!({"stream": stream, "input": input, "observed_kinds": [oa.gen.kind(), ob.gen.kind()], "validation": [va, vb]})
         };
         if retain.is_some() && self.c17 {
             j["observed_retained_artefacts"] = arts.json(true);
